@@ -20,6 +20,9 @@ Fp(r) == [cls |-> r.cls, norm |-> r.norm, deg2 |-> r.deg2, has_c |-> r.has_c, c2
 ArgDims(r) == [a \in 1..Len(r.args) |-> qdim[r.args[a]]]
 AllScalar(r) == qshape[r.ret] = 1 /\ \A a \in 1..Len(r.args) : qshape[r.args[a]] = 1
 
+(* a compound assignment  A op= B  (kind "cop": the value left in A) has the meaning of the pure operator *)
+BaseOp(r) == IF r.kind = "cop" THEN (CASE r.op = "+=" -> "+" [] r.op = "-=" -> "-" [] r.op = "*=" -> "*" [] r.op = "/=" -> "/") ELSE r.op
+
 TQDim == LET r == Facts[l] IN
   /\ IsEvent("QDim") /\ r.name \notin DOMAIN qdim /\ IsDim(r.dims)
   /\ qdim' = qdim @@ (r.name :> r.dims) /\ qshape' = qshape @@ (r.name :> r.ncomp)
@@ -32,9 +35,9 @@ TRel == LET r == Facts[l] IN
   /\ r.cls = "mono" => Len(r.deg2) = Len(r.args)
   /\ r.cls = "linear" => Len(r.coef) = Len(r.args)
   /\ LET dC == qdim[r.ret]  dA == ArgDims(r) IN
-     Judge((IF r.kind = "op"
-            THEN << <<OpDimsOK(r.op, dA[1], dA[2], dC), V("op_dims", r.name, r.ret)>>,
-                    <<OpFingerprintOK(r.op, Fp(r), AllScalar(r)), V("op_semantics", r.name, r.cls)>> >>
+     Judge((IF r.kind \in {"op", "cop"}
+            THEN << <<OpDimsOK(BaseOp(r), dA[1], dA[2], dC), V("op_dims", r.name, r.ret)>>,
+                    <<OpFingerprintOK(BaseOp(r), Fp(r), AllScalar(r)), V("op_semantics", r.name, r.cls)>> >>
             ELSE <<>>)
            \o (CASE r.cls = "mono"       -> << <<MonoDimsOK(r.deg2, dA, dC), V("mono_dims", r.name, r.ret)>> >>
                  [] r.cls = "linear"     -> << <<LinearDimsOK(r.coef, dA, dC), V("linear_dims", r.name, r.ret)>> >>
@@ -91,7 +94,7 @@ TEquiv == LET r == Facts[l] IN
   /\ UNCHANGED <<qdim, qshape, rel, thseen>>
 (* C04-B: every operator instance returns, bit for bit, the native (correctly rounded) operation on the stored values in the written order *)
 TOpNative == LET r == Facts[l] IN
-  /\ IsEvent("OpNative") /\ r.id \in DOMAIN rel /\ rel[r.id].kind = "op" /\ r.n > 0
+  /\ IsEvent("OpNative") /\ r.id \in DOMAIN rel /\ rel[r.id].kind \in {"op", "cop"} /\ r.n > 0      \* cop: compound assignment with a right-hand side of another quantity type
   /\ Judge(<< <<r.diff = 0, V("op_not_native", rel[r.id].name, r.num)>> >>)
   /\ stat' = [stat EXCEPT !.opnative = @ + 1]
   /\ UNCHANGED <<qdim, qshape, rel, thseen>>
